@@ -24,6 +24,7 @@ fn main() {
         "changeset" => sv::eng_changeset::run(&mut rep),
         "panicdrop" => sv::eng_panicdrop::run(&mut rep),
         "conc" => sv::eng_conc::run(&mut rep),
+        "det" => sv::eng_det::run(&mut rep),
         "parjoin" => sv::eng_join::par::run(&mut rep),
         "saveload" => sv::eng_saveload::run(&mut rep),
         "dispatch" => sv::eng_dispatch::run(&mut rep),
